@@ -384,6 +384,20 @@ func panicSignature(r any) (kind, sig string) {
 	kind = "other"
 	switch v := r.(type) {
 	case simrt.BudgetExceeded:
+		// how deep inside PASTE expansion the budget ran out (0: not there at all)
+		pcs := make([]uintptr, 1<<16)
+		n := runtime.Callers(3, pcs)
+		frames := runtime.CallersFrames(pcs[:n])
+		lastPasteDepth = 0
+		for {
+			f, more := frames.Next()
+			if strings.HasSuffix(f.Function, "core.(*JApiCore).processPasteDirective") {
+				lastPasteDepth++
+			}
+			if !more {
+				break
+			}
+		}
 		return "budget", "nontermination:" + v.What
 	case simrt.Deadlock:
 		pcs := make([]uintptr, 64)
@@ -457,6 +471,12 @@ func runLibrary(root string, rootContent []byte, o Opts) (res Result) {
 	defer func() { afterCreate = nil }()
 	return runLibraryWith(root, rootContent, oo, o.Entry)
 }
+
+// lastPasteDepth: number of nested PASTE expansions on the stack when the step budget ran out.
+var lastPasteDepth int
+
+// lastRootContent is the root text of the most recent execute (after faults on the root content).
+var lastRootContent []byte
 
 // afterCreate, if set, is what the caller does between creating and validating the JApi value
 // (sequential executions only).
@@ -633,6 +653,7 @@ func execute(p *Project, o Opts, env Env, plan []simrt.PlannedFault, seed uint64
 	}
 	rootContent := make([]byte, len(rc), len(rc)+env.Slack)
 	copy(rootContent, rc)
+	lastRootContent = append(lastRootContent[:0], rc...)
 	var res Result
 	if treeSpawnsGoroutines() {
 		// the library starts goroutines itself: even a single parse is a schedule
